@@ -145,7 +145,7 @@ __CPROVER_ensures((__CPROVER_return_value != NULL && TRACK3('k', 't', 'y') && __
  * (the k-th call, for the arbitrary ghost index g_seq_k): what it was given, what it returned. */
 static jwk_set_t *jwks_process(jwk_set_t *jwk_set, json_t *j_all, json_error_t *error);
 extern unsigned g_p1_calls, g_add_calls, g_seq_k; extern const json_t *g_p1_arg_k; extern const jwk_item_t *g_p1_ret_k, *g_add_item_k;
-#define SEQ_GHOSTS g_p1_calls, g_add_calls, g_p1_arg_k, g_p1_ret_k, g_add_item_k
+#define SEQ_GHOSTS g_p1_calls, g_add_calls, g_p1_arg_k, g_p1_ret_k, g_add_item_k, g_setfree_calls
 jwk_item_t *contract_rec_jwk_process_one(jwk_set_t *jwk_set, json_t *jwk)
 __CPROVER_requires(__CPROVER_rw_ok(jwk_set, sizeof(*jwk_set)) && jwk_set->error_msg[JWT_ERR_LEN - 1] == 0)
 __CPROVER_requires(jwk != NULL && __CPROVER_r_ok(jwk, sizeof(json_t)) && jwk->type >= JSON_OBJECT && jwk->type <= JSON_NULL && jwk->refcount >= 1)
@@ -164,6 +164,13 @@ __CPROVER_ensures(__CPROVER_return_value == 0 && g_add_calls == __CPROVER_old(g_
 __CPROVER_ensures(__CPROVER_old(g_add_calls) == g_seq_k ==> g_add_item_k == item)
 __CPROVER_ensures(__CPROVER_old(g_add_calls) != g_seq_k ==> g_add_item_k == __CPROVER_old(g_add_item_k))
 ;
+/* jwks_process never releases the set it was handed (it may be the caller's own keyring): jwks_free as jwks_process
+ * sees it only RECORDS the call -- the real one walks the ring (bounded C16 units) */
+extern unsigned g_setfree_calls;
+void contract_rec_jwks_free(jwk_set_t *jwk_set)
+__CPROVER_assigns(g_setfree_calls)
+__CPROVER_ensures(g_setfree_calls == __CPROVER_old(g_setfree_calls) + 1)
+;
 #define KEYS_TRACKED (g_json_key[0] == 'k' && g_json_key[1] == 'e' && g_json_key[2] == 'y' && g_json_key[3] == 's' && g_json_key[4] == 0)
 jwk_set_t *contract_C07_jwks_process(jwk_set_t *jwk_set, json_t *j_all, json_error_t *error)
 __CPROVER_requires(__CPROVER_is_fresh(jwk_set, sizeof(*jwk_set)) && jwk_set->error_msg[JWT_ERR_LEN - 1] == 0)
@@ -173,7 +180,7 @@ __CPROVER_requires(j_all == NULL || VJ_TRACKED_OK(j_all, g_vj_len_a))
 __CPROVER_requires(j_all == NULL || j_all->tracked == NULL || j_all->tracked->asize < 0x100000)
 __CPROVER_requires(__CPROVER_is_fresh(error, sizeof(*error)) && error->source[JSON_ERROR_SOURCE_LENGTH - 1] == 0 && error->text[JSON_ERROR_TEXT_LENGTH - 1] == 0)
 __CPROVER_requires(__CPROVER_is_fresh(g_json_key, 8) && KEYS_TRACKED && g_vj_len_c < 0x1000000)
-__CPROVER_requires(g_p1_calls == 0 && g_add_calls == 0 && g_lib_fail == 0 && g_p1_arg_k == NULL && g_p1_ret_k == NULL && g_add_item_k == NULL)
+__CPROVER_requires(g_p1_calls == 0 && g_add_calls == 0 && g_lib_fail == 0 && g_p1_arg_k == NULL && g_p1_ret_k == NULL && g_add_item_k == NULL && g_setfree_calls == 0)
 __CPROVER_assigns(jwk_set->error, SPEC_ERRMSG_FRAME(jwk_set), g_lib_fail, SEQ_GHOSTS, g_vj_elem, __CPROVER_object_whole(g_vj_elem_str))
 __CPROVER_ensures(__CPROVER_return_value == jwk_set)
 /* not JSON: the set carries an error and gains no items */
@@ -187,6 +194,8 @@ __CPROVER_ensures((j_all != NULL && j_all->tracked != NULL && j_all->tracked->ty
 /* and, unless the allocator failed, every entry's item is appended, the k-th append being the k-th entry's item */
 __CPROVER_ensures((j_all != NULL && g_lib_fail == 0) ==> (g_add_calls == g_p1_calls && (g_seq_k < g_p1_calls ==> (g_add_item_k == g_p1_ret_k && g_p1_ret_k != NULL))))
 __CPROVER_ensures(g_add_calls <= g_p1_calls)
+/* C17 / C07: whatever fails, the set handed in is still the caller's: it is never released here */
+__CPROVER_ensures(g_setfree_calls == 0)
 ;
 #endif
 
